@@ -4,7 +4,7 @@ import itertools
 ID = "C18"
 HARNESSES = [dict(name="upgrade", pkg="./pkg/upgrade/", test="TestVerifC18", timeout=900,
                   files=[("pkg/upgrade/zz_verif_c18_test.go", "harness/C18/zz_verif_c18_test.go")])]
-VARIANTS = ["repaired", "reuses_stale"]   # reuses_stale = /repo HEAD until the stale-staging repair lands (recorded finding)
+VARIANTS = ["repaired"]   # = /repo HEAD (six repairs committed); any old behaviour matches nothing = VIOLATION
 MODEL_NEEDS_IMPL = True   # only for one may-reject input class: an archive that repeats a member name (see ocaml/C18_run.ml)
 RULE = ("history cases: an installed tree of 5 artifact paths (absent / regular incl. empty, modes incl. setuid, setgid, "
         "sticky, 0 / symlink to a regular file outside the artifact dirs, to another artifact path, chains through "
@@ -125,12 +125,13 @@ def rand_faults(rng, arts, heavy):
         kw["hr"] = rng.choice(HEALTH)
     if rng.random() < (0.45 if heavy else 0.2):
         k = rng.choice([1, 1, 2])
-        kw["ob"] = [(rng.choice(arts)[0], rng.choice(["o", "o", "s", "f%s" % rng.choice(FMODES), "f%s" % rng.choice(FMODES)]))
+        kw["ob"] = [(rng.choice(arts)[0], rng.choice(["o", "o", "s", "f%s" % rng.choice(FMODES), "f%s" % rng.choice(FMODES),
+                                                      "l%d" % rng.choice(AUX + list(range(NP)) + [77])]))
                     for _ in range(k)]
         if len(set(p for p, _ in kw["ob"])) < len(kw["ob"]):
             kw["ob"] = kw["ob"][:1]
     if rng.random() < 0.15:
-        kw["rob"] = [(rng.choice(arts)[0], rng.choice(["o", "s", "f%s" % rng.choice(FMODES)]))]
+        kw["rob"] = [(rng.choice(arts)[0], rng.choice(["o", "s", "f%s" % rng.choice(FMODES), "l%d" % rng.choice(AUX + list(range(NP)))]))]
     return kw
 
 
@@ -278,6 +279,15 @@ def systematic():
             for kw in (dict(), dict(ha="failed"), dict(fail=[8, 12]), dict(crash=30)):
                 out.append("h 1 %s ; %s ; %s ; %s" % (fs0, mk_apply(2, ast, ob=[(0, "f" + sm)], **kw), mk_rollback(rob=[(1, "f" + sm)]),
                                                       mk_apply(2, ast)))
+    # a stale SYMLINK at the staging name (to a file outside, to another artifact, to a missing outside file, dangling, to a
+    # directory): must be discarded, never written through, never installed
+    fsl = "0:r10.755,1:r11.4755,2:d,3:r13.600,100:r50.644,101:s100"
+    for tgt in (100, 101, 102, 3, 2, 77, 0):
+        for am in ("e", "0755"):
+            asl = [(0, 20, am, "o"), (1, 21, "e", "n")]
+            for kw in (dict(), dict(ha="failed"), dict(fail=[8, 12])):
+                out.append("h 1 %s ; %s ; %s ; %s" % (fsl, mk_apply(2, asl, ob=[(0, "l%d" % tgt)], **kw),
+                                                      mk_rollback(rob=[(1, "l%d" % tgt)]), mk_apply(2, asl)))
     # never-upgraded box (no current-manifest.yaml: version discovered from the binary = id 63)
     out.append("h 63 %s ; %s ; %s ; %s" % (fs0, mk_apply(2, a2f, prev="63o"), mk_rollback(), mk_apply(2, a2f, prev="63o", ha="failed")))
     out.append("h 63 %s ; %s ; %s ; %s" % (fs0, mk_apply(2, a2f, fail=[36]), mk_rollback(), mk_apply(2, a2f, force=1)))
@@ -439,25 +449,6 @@ def classify(case, impl, model):
     return "G", "outputs differ in length: impl=%r model=%r" % (impl, model)
 
 
-def signature(case, impl, models):
-    """recorded finding: swapArtifact reuses a stale regular staging file, whose mode survives when the manifest gives none"""
-    if case.startswith("name"):
-        return None
-    si, sr, ops = segs(impl), segs(models["repaired"]), ops_of(case)
-    for k, (a, b) in enumerate(zip(si, sr)):
-        if a == b:
-            continue
-        fa, fb = fields(a), fields(b)
-        ia, ib = fa.get("fs", "").split(","), fb.get("fs", "").split(",")
-        stale = any(":f" in t for o in ops[:k + 1] for t in o.split() if t.startswith(("ob=", "rob=")))
-        onlymode = len(ia) == len(ib) and all(x == y or (x.startswith("r") and y.startswith("r") and x.split(".")[0] == y.split(".")[0])
-                                              for x, y in zip(ia, ib))
-        if stale and onlymode and fa.get("fs") != fb.get("fs"):
-            return "swap-reuses-stale-staging-file"
-        return None
-    return None
-
-
 def shrink(case):
     if case.startswith("name"):
         h = case.split()[1]
@@ -528,6 +519,7 @@ def distribution(cases, impl):
                     d["force"] += kv["force"] == "1"
                     d["with_obstacle"] += kv["ob"] != "-"
                 d["stale_staging_files"] += (kv.get("ob", "") + kv.get("rob", "")).count(":f")
+                d["stale_staging_symlinks"] = d.get("stale_staging_symlinks", 0) + (kv.get("ob", "") + kv.get("rob", "")).count(":l")
                 for l in kv["fail"].split(","):
                     if l != "-":
                         inc(d["fail_labels_requested"], l)
